@@ -2,3 +2,4 @@ import KcpVerif.Generated
 import KcpVerif.Model.Ring
 import KcpVerif.Model.Cfb
 import KcpVerif.Props.C20
+import KcpVerif.Props.C08
